@@ -301,7 +301,22 @@ def fm_check(kind, case, rec):
     rec.close("moment=sum-of-position-cross-force", float(np.abs(got - ref).max()) / max(1.0, float(np.abs(ref).max())) if got.shape == ref.shape else float("inf"), 1e-12)
 
 
+def saved_stress_strategy(kind, tier):
+    from vf.props import c20
+
+    return c20.save_strategy(kind, tier).map(lambda c: {**c, "gradient": True})
+
+
+def saved_stress_check(kind, case, rec):
+    """the Cauchy stress written by tools.save(..., gradient=[P]) is P F^T / det F shifted to the points (the file oracle
+    of C20, here with a stress in every case and states that contain rotations)"""
+    from vf.props import c20
+
+    c20.save_check(kind, case, rec)
+
+
 FAMILIES = [
+    Family("saved-stress", ["hexahedron", "tetra"], saved_stress_check, strategy=saved_stress_strategy, n={"quick": 6, "thorough": 200}, chunk=6),
     Family("project", PROJ, proj_check, strategy=proj_strategy, n={"quick": 6, "thorough": 800}, chunk=6, weight=2),
     Family("extrapolate-topoints", ["quad", "hexahedron", "quad9", "hexahedron27"], ext_check, strategy=ext_strategy, n={"quick": 10, "thorough": 1000}, chunk=10),
     Family("stress", STRESS, stress_check, strategy=stress_strategy, n={"quick": 8, "thorough": 600}, chunk=4, weight=4),
